@@ -304,8 +304,13 @@ func runC11(m *Sim) {
 	}
 	if cl.C != nil {
 		st := cl.C.VerifState()
+		var lines []string
 		for k, e := range st.Servers {
-			w.Logf("liveness phase: server %s banned=%v loc=%s", RoleOf(k), e.Banned, e.Location)
+			lines = append(lines, fmt.Sprintf("liveness phase: server %s banned=%v loc=%s", RoleOf(k), e.Banned, e.Location))
+		}
+		sortStrings(lines)
+		for _, l := range lines {
+			w.Logf("%s", l)
 		}
 		logs, order := cl.C.EventLog.DumpLogEntries()
 		for _, l := range order {
